@@ -27,7 +27,8 @@ MID_LITS = ["/", "/", "/", "-", ".", "/sub/", "", ":", "/x/", "}/", "/a b/", "/c
 END_LITS = ["", "", "", "/", "/detail", ".json", "/x/", "/end)", "/e d"]
 SCALAR_TYPES = ["string", "string", "int", "int64", "uint", "bool", "Status"]
 HDR_KEYS = ["X-Api", "X-Trace-Id", "accept", "Accept", "Content-Type", "Authorization", "x_custom", "X-A|B", "x-lower-k"]
-HDR_VALS = ["k1", "text/plain", "Bearer abc.def", "a=b;c=d", "v 1", "application/xml", "0", "T_1", "x,y"]
+HDR_VALS = ["k1", "text/plain", "Bearer abc.def", "a=b;c=d", "v 1", "application/xml", "0", "T_1", "x,y",
+            "*/*", "(x)", "-1", "=v", "~t", "*/*;q=0.8"]          # values with leading non-word characters (repaired K_rest_header_value_trim)
 STR_SAFE = ["a", "alice", "a b", "x?y#z", "a+b&c=d", "été", "", "..", "a/b", "semi;colon", "q=1", "#frag",
             "0", "-", "~", "a}b", ".", "x/../y", "sp ace/sl", "中", "A", "/lead", "trail/", "a//b", "(p)", "a:b@c", "!$'*,"]
 STR_QUERY_ONLY = ["100%", "{x}", "%41", "{id}", "50%25", "a{b"]
@@ -230,7 +231,9 @@ def gen_iface_pkg(rng, name, n_ifaces=2, methods_per_iface=(2, 4), with_qual=Non
         with_qual = rng.random() < 0.3
     pkg = {"name": name, "structs": [], "qpkg": None, "ifaces": []}
     for i in range(rng.randint(1, 3)):
-        pkg["structs"].append(gen_struct(rng, "Req%d" % i, False))
+        st = gen_struct(rng, "Req%d" % i, False)
+        st["other_file"] = rng.random() < 0.35         # declared in another file of the package (repaired K_rest_struct_other_file)
+        pkg["structs"].append(st)
     if with_qual:
         q = {"name": "q" + name, "structs": [gen_struct(rng, "QReq%d" % i, True) for i in range(rng.randint(1, 2))]}
         for st in q["structs"]:
@@ -358,11 +361,14 @@ def render_go(pkg, modname):
     src.append("")
     src.append("type Res struct {\n\tID int `json:\"id\"`\n}")
     src.append("")
+    other = ["package %s" % pkg["name"], ""]
     for st in pkg["structs"]:
-        src.append(render_struct(st))
+        (other if st.get("other_file") else src).append(render_struct(st))
     for ifc in pkg["ifaces"]:
         src.append(render_iface(ifc, pkg))
     files = {"%s/%s.go" % (pkg["name"], pkg["name"]): "\n".join(src)}
+    if len(other) > 2:
+        files["%s/%s_types.go" % (pkg["name"], pkg["name"])] = "\n".join(other)
     if pkg["qpkg"]:
         q = pkg["qpkg"]
         qs = ["package %s" % q["name"], ""]
@@ -396,8 +402,8 @@ def coq_field_decl(f):
 
 
 def coq_env(pkg):
-    ftypes = [("Status", False), ("Res", True)] + [(s["name"], True) for s in pkg["structs"]] + \
-             [(i["name"], False) for i in pkg["ifaces"]]
+    ftypes = [("Status", False), ("Res", True)] + [(s["name"], True) for s in pkg["structs"] if not s.get("other_file")] + \
+             [(i["name"], False) for i in pkg["ifaces"]] + [(s["name"], True) for s in pkg["structs"] if s.get("other_file")]
     sel = ['(("context", "Context"), SelCtx)']
     structs = []
     for s in pkg["structs"]:
@@ -410,7 +416,7 @@ def coq_env(pkg):
             sel.append("((%s, %s), SelNamed)" % (coq_str(q["name"]), coq_str(s["name"])))
             structs.append("((%s, %s), %s)" % (coq_str(q["name"]), coq_str(s["name"]),
                                               coq_list(coq_field_decl(f) for f in s["fields"])))
-    return ("{| e_file_types := %s; e_sel := %s; e_structs := %s |}"
+    return ("{| e_pkg_types := %s; e_sel := %s; e_structs := %s |}"
             % (coq_list("(%s, %s)" % (coq_str(n), coq_bool(b)) for n, b in ftypes), coq_list(sel), coq_list(structs)))
 
 
@@ -488,7 +494,8 @@ def coq_texpr_ast(t):
 
 def coq_env_ast(ast, fname):
     """the env record from what harness/go/cmd/restast read in the Go sources (go/parser, as shoot does)"""
-    ftypes = coq_list("(%s, %s)" % (coq_str(t["name"]), coq_bool(t["struct"])) for t in ast["files"][fname])
+    decls = list(ast["files"][fname]) + [t for f in sorted(ast["files"]) if f != fname for t in ast["files"][f]]
+    ftypes = coq_list("(%s, %s)" % (coq_str(t["name"]), coq_bool(t["struct"])) for t in decls)
     sel = ['(("context", "Context"), SelCtx)'] + ["((%s, %s), SelNamed)" % (coq_str(a), coq_str(b)) for a, b in ast["named"]]
     structs = []
     for sd in ast["structs"]:
@@ -496,7 +503,7 @@ def coq_env_ast(ast, fname):
                        % (coq_list(coq_str(n) for n in f["names"]), coq_str(f["type"]), coq_bool(f["star"]),
                           "None" if f["tag"] is None else "Some %s" % coq_str(f["tag"])) for f in sd["fields"])
         structs.append("((%s, %s), %s)" % (coq_str(sd["pkg"]), coq_str(sd["name"]), fds))
-    return "{| e_file_types := %s; e_sel := %s; e_structs := %s |}" % (ftypes, coq_list(sel), coq_list(structs))
+    return "{| e_pkg_types := %s; e_sel := %s; e_structs := %s |}" % (ftypes, coq_list(sel), coq_list(structs))
 
 
 def coq_iface_ast(ifc):
